@@ -317,7 +317,8 @@ class RainbowDQN(RLAlgorithm):
             t_z = t_z.clamp(min=self.v_min, max=self.v_max)
 
             # Finds closest support element index value
-            b = (t_z - self.v_min) / self.delta_z
+            # (kept inside the atom range: the division can round above the last atom)
+            b = ((t_z - self.v_min) / self.delta_z).clamp(0, self.num_atoms - 1)
 
             # Find the neighbouring indices of b
             L = b.floor().long()
